@@ -53,6 +53,12 @@ class FCursor:
 class FConn:
     def __init__(self, plan, path, **kw):
         self._plan = plan
+        if plan.armed:      # the fault hits the connect itself (a reconnect attempt that fails)
+            kind, plan.armed, plan.fired = plan.armed, None, True
+            plan.log.append((0, "connect-failed"))
+            if kind == "disconnect":
+                raise sqlite3.ProgrammingError(DISCONNECT_MSG)
+            raise sqlite3.OperationalError("injected error")
         plan.nconn += 1
         self.id = plan.nconn
         self._real = sqlite3.connect(path, **kw)
